@@ -96,7 +96,7 @@ NOT_BUILT_REASON = "not built yet in this round (planned, see DESIGN.md section 
 NOT_APPLICABLE = {}
 
 # builder-delivered checks are only claimed once reviewed and listed here
-READY = {"C27"}
+READY = {"C27", "C10", "C11", "C14", "C28"}
 
 
 def _load_from_notes() -> None:
